@@ -202,10 +202,34 @@ func matchIdiom(c *Check, j *CtxJudge, r *Resolver, s BSite, cone *Cone) (bool, 
 			return idiomClosedOnCancel(j, r, s, p)
 		case retryExternal(sc) != "":
 			return idiomBoundedRetry(j, r, ci)
+		case name == "(*net/http.Server).Shutdown":
+			return idiomBoundedShutdown(j, r, ci)
 		}
 		return false, "blocking call " + name + " has no accepted cancellation idiom"
 	}
 	return false, "unrecognised blocking construct"
+}
+
+// idiom (j): graceful shutdown bounded by the (cancelled) worker context or
+// by a deadline context.
+func idiomBoundedShutdown(j *CtxJudge, r *Resolver, ci ssa.CallInstruction) (bool, string) {
+	args := ci.Common().Args
+	if len(args) != 2 {
+		return false, "unexpected Shutdown call shape"
+	}
+	o := r.Of(args[1])
+	if o.K == "call" || o.K == "ext" {
+		if cl, ok := o.V.(*ssa.Call); ok {
+			if sc := staticCallee(cl.Common()); sc != nil && FuncPkgPath(sc) == "context" && (sc.Name() == "WithTimeout" || sc.Name() == "WithDeadline") {
+				return true, "idiom (j): Shutdown bounded by a deadline context (" + sc.Name() + ")"
+			}
+		}
+	}
+	if ok, why := j.OK(r, args[1]); ok {
+		return true, "idiom (j): Shutdown bounded by the worker's context, which is already cancelled when the shutdown starts (" + why + ")"
+	} else {
+		return false, "Shutdown waits for active connections with a context that is neither the worker's nor a deadline (" + why + "): one stalled client keeps the daemon alive after a failure or a termination signal"
+	}
 }
 
 // idiom (i): a library retry loop whose back-off policy is tied to the
